@@ -137,7 +137,12 @@ impl FeatureRangeFn {
 
                         use ::core::iter::Iterator;
                         #ident_iter_struct {
-                            inner: Self::#ident_table_enum[start_idx..=end_idx].iter().copied(),
+                            inner: if start_idx > end_idx {
+                                // empty range (slicing with start > end + 1 would panic)
+                                Self::#ident_table_enum[0..0].iter().copied()
+                            } else {
+                                Self::#ident_table_enum[start_idx..=end_idx].iter().copied()
+                            },
                         }
                     }
                 },
@@ -203,7 +208,12 @@ impl FeatureRangeFn {
 
                         use ::core::iter::Iterator;
                         #ident_iter_struct {
-                            inner: Self::#ident_table_enum[start_idx..=end_idx].iter().copied(),
+                            inner: if start_idx > end_idx {
+                                // empty range (slicing with start > end + 1 would panic)
+                                Self::#ident_table_enum[0..0].iter().copied()
+                            } else {
+                                Self::#ident_table_enum[start_idx..=end_idx].iter().copied()
+                            },
                         }
                     }
                 },
